@@ -160,7 +160,25 @@ Fixpoint cb_find (fuel k : nat) (pre : list token) : option (nat * nat) :=
 Inductive head_kind :=
 | HFunc (pre hd : list token) (nm_off hend_off : nat)
 | HCtrl (kw : token) (words cond : list token)
-| HCb (a tail : list token) (d : nat).
+| HCb (a tail : list token) (d : nat)
+| HNew (pre : list token) (kn nm : token) (gs : list token).
+
+(* Java / C#: `pre new Name (…)+` right before a brace *)
+Definition new_head (l : language) (ts : list token) : option (head_kind * list token) :=
+  match l with
+  | LJava | LCSharp =>
+      let '(p, r1) := take_plain ts in
+      match rev p with
+      | nm :: kn :: rpre =>
+          if kw_is kn kw_new && is_name nm then
+            let n := groups_len r1 0 in
+            let gs := firstn n r1 in
+            if groups_b gs then Some (HNew (rev rpre) kn nm gs, skipn n r1) else None
+          else None
+      | _ => None
+      end
+  | _ => None
+  end.
 
 Definition split_last (ws : list token) : option (list token * token) :=
   match rev ws with [] => None | x :: r => Some (rev r, x) end.
@@ -262,22 +280,39 @@ Fixpoint parse_items (fuel : nat) (l : language) (off : nat) (ts : list token) :
                                | None => None
                                end
                              else None in
-                   match (match cb with Some x => Some x | None => parse_head l ts end) with
+                   match (match cb with Some x => Some x | None => match new_head l ts with Some x => Some x | None => parse_head l ts end end) with
                    | None => None
                    | Some (hk, rest) =>
                        match rest with
                        | o :: body_and_more =>
                            if negb (is_lbrace o) then None else
                            let hlen := (length ts - length rest)%nat in          (* tokens before the brace *)
-                           match parse_items f l (off + hlen + 1) body_and_more with
+                           let flat_body := match hk with
+                                            | HNew _ _ _ _ =>
+                                                let '(flat, r3) := take_plain body_and_more in
+                                                match r3 with
+                                                | c0 :: _ => if is_rbrace c0 then Some (@nil fdesc, r3) else None
+                                                | [] => None
+                                                end
+                                            | _ => None
+                                            end in
+                           match (match flat_body with Some x => Some x | None => parse_items f l (off + hlen + 1) body_and_more end) with
                            | Some (ds1, c :: more) =>
                                if negb (is_rbrace c) then None else
                                let blen := (length body_and_more - length (c :: more))%nat in
                                (* a callback is closed by its parentheses and a ";" *)
-                               let extra := match hk with HCb _ _ d => S d | _ => O end in
+                               let extra := match hk with
+                                            | HCb _ _ d => S d
+                                            | HNew _ _ _ _ => match stmt_len more O with Some n => n | None => O end
+                                            | _ => O
+                                            end in
                                let closes_ok := match hk with
                                                 | HCb _ _ d => forallb is_rparen (firstn d more) && Nat.eqb (length (firstn d more)) d
                                                                && match skipn d more with semi :: _ => is_symbol semi semicolon | [] => false end
+                                                | HNew _ _ _ _ => match stmt_len more O with
+                                                                  | Some n => inner_b (firstn (n - 1) more)
+                                                                  | None => false
+                                                                  end
                                                 | _ => true
                                                 end in
                                if negb closes_ok then None else
@@ -290,6 +325,7 @@ Fixpoint parse_items (fuel : nat) (l : language) (off : nat) (ts : list token) :
                                           && forallb (fun x => negb (kw_is x s_throws)) (words ++ cond)
                                        then Some (ds1 ++ ds2, rest3) else None
                                    | HCb _ _ _ => Some (ds1 ++ ds2, rest3)
+                                   | HNew pre _ _ _ => if forallb plain pre then Some (ds1 ++ ds2, rest3) else None
                                    | HFunc pre hd nm_off hend_off =>
                                        if forallb (prefix_word l) pre
                                           && (lang_nested l || match ds1 with [] => true | _ => false end)
